@@ -95,6 +95,13 @@ func TestVerifC19Proc(t *testing.T) {
 	ncases := vBudget(120, 20)
 	errProc := errors.New("processing failed")
 	errNext := errors.New("next consumer failed")
+	// ErrSkipProcessingData must be recognised by errors.Is, i.e. also when the processing function wraps it
+	skipErr := func(i int) error {
+		if i%2 == 1 {
+			return fmt.Errorf("nothing to do here: %w", ErrSkipProcessingData)
+		}
+		return ErrSkipProcessingData
+	}
 	for c := 0; c < ncases; c++ {
 		sig := rng.Intn(3)
 		nops := 1 + rng.Intn(10)
@@ -143,13 +150,20 @@ func TestVerifC19Proc(t *testing.T) {
 		var call func(n int) error
 		switch sig {
 		case 0:
-			next, _ := consumer.NewTraces(func(_ context.Context, td ptrace.Traces) error { return nextRes(td.SpanCount()) })
+			next, _ := consumer.NewTraces(func(_ context.Context, td ptrace.Traces) error {
+				n := td.SpanCount()
+				td.ResourceSpans().MoveAndAppendTo(ptrace.NewTraces().ResourceSpans())
+				return nextRes(n)
+			})
 			p, err := NewTraces(context.Background(), set, nil, next, func(_ context.Context, td ptrace.Traces) (ptrace.Traces, error) {
+				if cur%3 == 0 { // the function may consume its input in place: incoming is what was GIVEN
+					td.ResourceSpans().MoveAndAppendTo(ptrace.NewTraces().ResourceSpans())
+				}
 				switch ops[cur].res {
 				case 1:
 					return td, errProc
 				case 2:
-					return td, ErrSkipProcessingData
+					return td, skipErr(cur)
 				}
 				return vC19T(ops[cur].nout), nil
 			})
@@ -158,13 +172,20 @@ func TestVerifC19Proc(t *testing.T) {
 			}
 			call = func(n int) error { return p.ConsumeTraces(callCtx, vC19T(n)) }
 		case 1:
-			next, _ := consumer.NewMetrics(func(_ context.Context, md pmetric.Metrics) error { return nextRes(md.DataPointCount()) })
+			next, _ := consumer.NewMetrics(func(_ context.Context, md pmetric.Metrics) error {
+				n := md.DataPointCount()
+				md.ResourceMetrics().MoveAndAppendTo(pmetric.NewMetrics().ResourceMetrics())
+				return nextRes(n)
+			})
 			p, err := NewMetrics(context.Background(), set, nil, next, func(_ context.Context, md pmetric.Metrics) (pmetric.Metrics, error) {
+				if cur%3 == 0 {
+					md.ResourceMetrics().MoveAndAppendTo(pmetric.NewMetrics().ResourceMetrics())
+				}
 				switch ops[cur].res {
 				case 1:
 					return md, errProc
 				case 2:
-					return md, ErrSkipProcessingData
+					return md, skipErr(cur)
 				}
 				return vC19M(ops[cur].nout), nil
 			})
@@ -173,13 +194,20 @@ func TestVerifC19Proc(t *testing.T) {
 			}
 			call = func(n int) error { return p.ConsumeMetrics(callCtx, vC19M(n)) }
 		default:
-			next, _ := consumer.NewLogs(func(_ context.Context, ld plog.Logs) error { return nextRes(ld.LogRecordCount()) })
+			next, _ := consumer.NewLogs(func(_ context.Context, ld plog.Logs) error {
+				n := ld.LogRecordCount()
+				ld.ResourceLogs().MoveAndAppendTo(plog.NewLogs().ResourceLogs())
+				return nextRes(n)
+			})
 			p, err := NewLogs(context.Background(), set, nil, next, func(_ context.Context, ld plog.Logs) (plog.Logs, error) {
+				if cur%3 == 0 {
+					ld.ResourceLogs().MoveAndAppendTo(plog.NewLogs().ResourceLogs())
+				}
 				switch ops[cur].res {
 				case 1:
 					return ld, errProc
 				case 2:
-					return ld, ErrSkipProcessingData
+					return ld, skipErr(cur)
 				}
 				return vC19L(ops[cur].nout), nil
 			})
